@@ -148,8 +148,7 @@ def run(chk):
                     func="guppylang_internals.cfg.builder:ExprBuilder.visit_UnaryOp")
 
     # ---- constant payload: python_value_to_hugr(int) carries exactly v at width 6
-    def rec(name):
-        return lambda it, a, k: SObj(ClassVal(name), {"args": tuple(a), **k})
+    from .bindings import rec
     e.ext_models["hugr.std.int.IntVal"] = rec("IntVal")
     e.ext_models["hugr.val.Extension"] = rec("Extension")
     e.ext_models["hugr.std.int.int_t"] = rec("int_t")
